@@ -10,6 +10,8 @@ from sa.guards import GuardView, atom_of, names_in
 from sa.index import own_nodes
 from sa.report import Ctx
 
+from .common import generic_sweeps
+
 from .sat_common import _enclosing_block
 
 EXPLANATION = (
@@ -123,6 +125,7 @@ def run(ctx: Ctx):
             ctx.ob("C16-O3", "R5 PAIRING", b, "objective is the number of bins opened", nb == ["len(bins)"] and ast.unparse(s.arg("objective")) in ("float(num_bins)", "num_bins"), "", node=s.call)
     pre = [n for n in own_nodes(b.node) if isinstance(n, ast.Raise)]
     ctx.ob("C16-O3", "R14 GATE", b, "items larger than a bin or negative are rejected up front", sum(1 for r in pre if "exceeds bin capacity" in ast.unparse(r) or "negative size" in ast.unparse(r)) == 2, "", node=b.node)
+    generic_sweeps(ctx)
 
 
 def _sel_name(k) -> str:
